@@ -25,11 +25,13 @@ pub struct FrameSt {
     pub origin: Vec<(u32, u32, Ptr, u32)>,
     /// discriminant temp -> enum place
     pub discr: Vec<(u32, u32, Ptr)>,
+    /// local holding the tracked result of a call: (local, version, fact key)
+    pub callres: Vec<(u32, u32, Rc<str>)>,
 }
 
 impl FrameSt {
     pub fn new(n: usize) -> FrameSt {
-        FrameSt { locals: vec![Val::Bot; n], vers: vec![0; n], bdefs: Vec::new(), origin: Vec::new(), discr: Vec::new() }
+        FrameSt { locals: vec![Val::Bot; n], vers: vec![0; n], bdefs: Vec::new(), origin: Vec::new(), discr: Vec::new(), callres: Vec::new() }
     }
     pub fn bump(&mut self, l: u32) {
         self.vers[l as usize] = self.vers[l as usize].wrapping_add(1);
@@ -37,6 +39,7 @@ impl FrameSt {
         self.bdefs.retain(|e| e.0 != l2);
         self.origin.retain(|e| e.0 != l2);
         self.discr.retain(|e| e.0 != l2);
+        self.callres.retain(|e| e.0 != l2);
     }
 }
 
@@ -46,11 +49,26 @@ pub struct State {
     pub atoms: Vec<(i128, i128)>,
     /// number of generator requests made on this path (u32::MAX = paths with different counts merged)
     pub rng_count: u32,
+    /// path facts: interval of the latest tracked call result per key, refined by the branch conditions
+    /// taken since (absent key = nothing known)
+    pub facts: Rc<std::collections::BTreeMap<Rc<str>, (i128, i128)>>,
 }
 
 impl State {
     pub fn empty() -> State {
-        State { frames: Vec::new(), atoms: Vec::new(), rng_count: 0 }
+        State { frames: Vec::new(), atoms: Vec::new(), rng_count: 0, facts: Rc::new(Default::default()) }
+    }
+    fn join_facts(&self, o: &State) -> Rc<std::collections::BTreeMap<Rc<str>, (i128, i128)>> {
+        if Rc::ptr_eq(&self.facts, &o.facts) || self.facts == o.facts {
+            return self.facts.clone();
+        }
+        let mut m = std::collections::BTreeMap::new();
+        for (k, a) in self.facts.iter() {
+            if let Some(b) = o.facts.get(k) {
+                m.insert(k.clone(), (a.0.min(b.0), a.1.max(b.1)));
+            }
+        }
+        Rc::new(m)
     }
     pub fn join(&self, o: &State) -> State {
         let mut frames = Vec::with_capacity(self.frames.len());
@@ -66,11 +84,12 @@ impl State {
             f.bdefs = a.bdefs.iter().filter(|e| b.bdefs.contains(e) && a.vers[e.0 as usize] == b.vers[e.0 as usize]).cloned().collect();
             f.origin = a.origin.iter().filter(|e| b.origin.contains(e) && a.vers[e.0 as usize] == b.vers[e.0 as usize]).cloned().collect();
             f.discr = a.discr.iter().filter(|e| b.discr.contains(e) && a.vers[e.0 as usize] == b.vers[e.0 as usize]).cloned().collect();
+            f.callres = a.callres.iter().filter(|e| b.callres.contains(e) && a.vers[e.0 as usize] == b.vers[e.0 as usize]).cloned().collect();
             frames.push(f);
         }
         let n = self.atoms.len().min(o.atoms.len());
         let atoms = (0..n).map(|i| (self.atoms[i].0.min(o.atoms[i].0), self.atoms[i].1.max(o.atoms[i].1))).collect();
-        State { frames, atoms, rng_count: if self.rng_count == o.rng_count { self.rng_count } else { u32::MAX } }
+        State { frames, atoms, rng_count: if self.rng_count == o.rng_count { self.rng_count } else { u32::MAX }, facts: self.join_facts(o) }
     }
 
     pub fn widen(&self, new: &State) -> State {
@@ -84,6 +103,15 @@ impl State {
             let (a, b) = (self.atoms[i], j.atoms[i]);
             j.atoms[i] = (if b.0 < a.0 { i128::MIN } else { b.0 }, if b.1 > a.1 { i128::MAX } else { b.1 });
         }
+        if !self.facts.is_empty() {
+            let mut m = std::collections::BTreeMap::new();
+            for (k, b) in j.facts.iter() {
+                if let Some(a) = self.facts.get(k) {
+                    m.insert(k.clone(), (if b.0 < a.0 { i128::MIN } else { b.0 }, if b.1 > a.1 { i128::MAX } else { b.1 }));
+                }
+            }
+            j.facts = Rc::new(m);
+        }
         j
     }
 
@@ -96,6 +124,12 @@ impl State {
                 if !a.locals[i].leq(&b.locals[i]) {
                     return false;
                 }
+            }
+        }
+        for (k, b) in o.facts.iter() {
+            match self.facts.get(k) {
+                Some(a) if a.0 >= b.0 && a.1 <= b.1 => {}
+                _ => return false,
             }
         }
         let n = self.atoms.len().min(o.atoms.len());
